@@ -137,10 +137,6 @@ def check_case(case):
     if eta0 is None or (fam.startswith("Logistic") and np.max(np.abs(eta0)) > 12.) or (fam == "Poisson" and np.min(eta0) < -12.):
         # (quasi-)separable unpenalised part: the loss is flat far out and "the" null model is not identified
         return result([], False, classes + ["unbounded-null-model(discarded)"])
-    if spec["name"] in ("MCPenalty", "WeightedMCPenalty") and (fi or len(unpen)):
-        # non-convex penalty with an unpenalised part: the cold start is not the null model and coordinate descent may
-        # legitimately end in another stationary point (flat region of the MCP); only the fully penalised case is claimed
-        return result([], False, classes + ["nonconvex-with-unpenalised-part(not claimed)"])
     if kind == "multitask":
         G = X.T @ (eta0 - y) / n
         ref_amax = float(np.linalg.norm(G, axis=1).max())
@@ -176,6 +172,10 @@ def check_case(case):
         viol.append(Viol(dict(sig, kind="alpha_max-value", zero_weights=bool(len(unpen))),
                          f"library alpha_max = {lib_amax!r} but max_j |g_j|/weight_j over penalised features (critical strength) = {ref_amax!r}; penalty {spec}"))
         return result(viol, True, classes)
+    if spec["name"] in ("MCPenalty", "WeightedMCPenalty") and (fi or len(unpen)):
+        # non-convex penalty with an unpenalised part: the cold start is not the null model and coordinate descent may
+        # legitimately end in another stationary point (flat region of the MCP); only the fully penalised case is claimed
+        return result([], False, classes + ["nonconvex-with-unpenalised-part(not claimed)"])
     # gradient at the null model that is pure round-off (columns collinear with the unpenalised part): Cauchy-Schwarz
     # scale of the sums that cancel
     if kind == "multitask":
